@@ -29,15 +29,15 @@ META = dict(
     level_text=('Theorems (any forest, any operation of the SymCore catalogue, any scope stack): a call delivers at most one notification and nobody hears about it twice; '
                 'the receivers are exactly the observing nodes among the written containers and the containers above them; every event carries exactly the updates at or below its '
                 'receiver, keyed by relative path, with the items the forest held before / holds after the write; inside a disabled scope, for Dict.update and for skip_notification=True '
-                'nothing is delivered; receivers are notified children first (on simple keys, where the KeyPath comparison is an order); every operation resets the memoised facts of every '
+                'nothing is delivered; the notification names exactly the containers the call wrote, and with notification enabled a call that wrote and did not raise has notified; receivers are notified children first (on every int key and every string key that does not look like a number, where the KeyPath comparison is an order); every operation resets the memoised facts of every '
                 'node whose contents it changes, queries answer with the fact of the current contents, hence after any history every node reports what a computation from scratch gives. '
                 'Tie: step-level correspondence of event logs (receiver, path, payload with old and new contents), of which memo attributes every live node holds, and of the observed facts, '
                 'on a systematic sweep (every mutator x depth x subscriber placement x notification on/off) and generated histories; direct oracles for the event contract and for freshness '
                 'against a copy rebuilt from JSON, also on typed trees with required/default fields, MISSING_VALUE and pg.oneof.'),
     level_note=('Trusted: Coq kernel; extraction cross-checked against vm_compute; the SymCore driver and the C09 observers (test classes, callbacks, reading the memo attributes). '
                 'Modelled, not verified: the Python code (tied by the correspondence). '
-                'Children-first is proved for paths of simple keys (where sorted() is determined). Typed fields and pg.oneof are covered by the direct oracle only. '
-                'One open finding (event for a reset that changes nothing), exhibited by C09_spurious_refuted.'),
+                'Children-first is proved for paths of int keys and of string keys that do not start with a digit or a minus sign (where sorted() is determined; outside the comparison has a cycle, C09_key_order_cycle). Typed fields and pg.oneof are covered by the direct oracle only. '
+                'Two open findings (event for a write that changes nothing; intermediate locations of overlapping batches), exhibited by C09_spurious_refuted / C09_overlapping_batch_refuted.'),
     rule='a case is (forest literal with callback flags, list of (scope stack, operation, observe?)); distinct by canonical text; non-trivial when at least one '
          'step delivers an event to a subscribing ancestor or changes a memoised fact of a node that held it',
     trusted_base=['translator harness/translators/notify_src.py (fail-closed ast reader of base.py / list.py / dict.py; never imports pyglove)',
@@ -45,7 +45,8 @@ META = dict(
                   'implementation driver harness/props/symcore_driver.py + the observers of harness/props/c09.py (test classes, callbacks, cache inspection)'],
     assumptions=['histories are finite sequences of the modelled operations; rebind batches generated for the correspondence are prefix-free',
                  'C09_fresh: history_ok -- an opaque leaf identity has one content (where the identity test of sort/reverse says nothing moved, the items are the same list)',
-                 'C09_children_first: the keys on the receivers\' paths are simple (ints 0..9, strings not starting with a digit or sign); counted per run in coverage.hypotheses'],
+                 'C09_children_first: the keys on the receivers\' paths are simple (any int; strings not starting with a digit or a minus sign); counted per run in coverage.hypotheses',
+                 'C09_write_is_told: step_tells -- the operation is not Dict.update / |= / l * n and not a clear() of an empty container (these write without telling by design)'],
 )
 
 # ---- observers ---------------------------------------------------------------------------------------------------------------
@@ -704,6 +705,14 @@ CORPUS9 = {
   # placeholders: pure / non-deterministic leaves appear and disappear at depth
   'placeholders': case9([{'a': {'b': [1, ('opq', 1, 2)]}, 'c': ('obj', 1, {'x': ('opq', 2, 1)})}], (NS, NOP()), (NS, [D.LPOP, pos(0, 'a', 'b'), []]),
                         (OFF, [D.OSET, pos(0, 'c'), ek('x'), val(1)]), (NS, [D.DUPDATE, pos(0, 'a'), [[ek('z'), val(('opq', 3, 1))]]])),
+  # children first beyond one-digit indices (C09_children_first covers every int key): subscribers at z[2], z[9], z[10], z[11] -- two ints compare as ints
+  # ([10] after [9] in ascending order), so the delivery order is z[11], z[10], z[9], z[2], z, root
+  'long-list-order': case9([('cb', {'z': ('cb', [('cb', {'a': i}) for i in range(12)])})],
+                           (NS, [D.REBIND, pos(0), [[[ek('z'), [1, 2], ek('a')], val(-1)], [[ek('z'), [1, 10], ek('a')], val(-2)],
+                                                     [[ek('z'), [1, 9], ek('a')], val(-3)], [[ek('z'), [1, 11], ek('a')], val(-4)]]]),
+                           (NS, [D.REBIND, pos(0, 'z'), [[[[1, 10], ek('a')], val(5)], [[[1, 9], ek('a')], val(6)], [[[1, -12], ek('a')], val(7)]]])),
+  'long-list-delete-order': case9([('cb', [('cb', [i]) for i in range(11)])],
+                                  (NS, [D.REBIND, pos(0), [[[[1, 10], [1, 0]], val(1)], [[[1, 1], [1, 0]], val(2)], [[[1, 3]], val('MISSING')]]])),
   'query-short-circuit': case9([{'a': ('opq', 1, 2), 'b': {'c': 1}, 'd': [{'e': ('opq', 2, 1)}]}], (NS, [QUERY, pos(0), 0], 0), (NS, [QUERY, pos(0, 'd'), 0], 0),
                                (NS, [QUERY, pos(0), 1], 0), (NS, [QUERY, pos(0), 2], 0), (NS, [D.DSET, pos(0, 'b'), 0, ek('c'), val(2)], 0), (NS, [QUERY, pos(0, 'b'), 2], 0)),
 }
@@ -1253,8 +1262,8 @@ def scope_checks(ctx):
 def simple_key(k):
   """The key class of theorem C09_children_first (Proofs/SymCoreEventsOrder.v simple_key)."""
   if k[0] == 1:
-    return 0 <= k[1] <= 9
-  return len(k) == 1 or k[1] > 57
+    return True
+  return len(k) == 1 or (k[1] != 45 and (k[1] < 48 or k[1] > 57))
 
 def describe_diff(case, a, b):
   from harness.lib import tr as trlib
